@@ -100,6 +100,146 @@ fn contents(s: KindSet) -> Vec<Kind> {
 	s.iter().collect()
 }
 
+/// Model-based exploration of an exact-size, double-ended, fused iterator over
+/// `items`: the model is a double-ended queue. Steps: next, next_back,
+/// nth(k), nth_back(k) for k in {0, 1, 2, 7}. After every prefix of every
+/// sequence of up to 3 steps: `len` / `size_hint`, and every whole-iterator
+/// method of `Iterator` / `DoubleEndedIterator` applied to a copy.
+fn method_sequences<I>(items: &[Kind], make: &dyn Fn() -> I) -> Result<u64, String>
+where
+	I: DoubleEndedIterator<Item = Kind> + ExactSizeIterator + Clone,
+{
+	use std::collections::VecDeque;
+	#[derive(Clone, Copy, Debug)]
+	enum Step {
+		Next,
+		NextBack,
+		Nth(usize),
+		NthBack(usize),
+	}
+	let mut alphabet = vec![Step::Next, Step::NextBack];
+	for k in [0usize, 1, 2, 7] {
+		alphabet.push(Step::Nth(k));
+		alphabet.push(Step::NthBack(k));
+	}
+	fn whole<I: DoubleEndedIterator<Item = Kind> + ExactSizeIterator + Clone>(it: &I, m: &VecDeque<Kind>, ctx: &dyn Fn() -> String) -> Result<u64, String> {
+		let v: Vec<Kind> = m.iter().copied().collect();
+		let mut n = 0u64;
+		macro_rules! same {
+			($what:literal, $got:expr, $want:expr) => {{
+				n += 1;
+				let (g, w) = ($got, $want);
+				if g != w {
+					return Err(format!("{}: {} gives {:?}, expected {:?} (remaining {:?})", ctx(), $what, g, w, v));
+				}
+			}};
+		}
+		same!("len()", it.len(), v.len());
+		same!("size_hint()", it.size_hint(), (v.len(), Some(v.len())));
+		same!("collect()", it.clone().collect::<Vec<_>>(), v.clone());
+		same!("rev().collect()", it.clone().rev().collect::<Vec<_>>(), v.iter().rev().copied().collect::<Vec<_>>());
+		same!("count()", it.clone().count(), v.len());
+		same!("last()", it.clone().last(), v.last().copied());
+		same!("Iterator::min", Iterator::min(it.clone()), v.iter().copied().min());
+		same!("Iterator::max", Iterator::max(it.clone()), v.iter().copied().max());
+		same!("min_by", it.clone().min_by(|a, b| a.cmp(b)), v.iter().copied().min());
+		same!("max_by", it.clone().max_by(|a, b| a.cmp(b)), v.iter().copied().max());
+		same!("min_by_key(Reverse)", it.clone().min_by_key(|k| std::cmp::Reverse(*k)), v.iter().copied().max());
+		same!("max_by_key(Reverse)", it.clone().max_by_key(|k| std::cmp::Reverse(*k)), v.iter().copied().min());
+		same!("fold", it.clone().fold(Vec::new(), |mut a, k| { a.push(k); a }), v.clone());
+		same!("rfold", it.clone().rfold(Vec::new(), |mut a, k| { a.push(k); a }), v.iter().rev().copied().collect::<Vec<_>>());
+		same!("reduce(first)", it.clone().reduce(|a, _| a), v.first().copied());
+		same!("reduce(last)", it.clone().reduce(|_, b| b), v.last().copied());
+		same!("partition", it.clone().partition::<Vec<_>, _>(|k| (*k as usize) % 2 == 0), v.iter().copied().partition::<Vec<_>, _>(|k| (*k as usize) % 2 == 0));
+		same!("eq(model)", it.clone().eq(v.iter().copied()), true);
+		same!("cmp(model)", it.clone().cmp(v.iter().copied()), std::cmp::Ordering::Equal);
+		same!("is_sorted", it.clone().is_sorted(), true);
+		let mut each = Vec::new();
+		it.clone().for_each(|k| each.push(k));
+		same!("for_each", each, v.clone());
+		same!("step_by(2)", it.clone().step_by(2).collect::<Vec<_>>(), v.iter().copied().step_by(2).collect::<Vec<_>>());
+		same!("skip(1)", it.clone().skip(1).collect::<Vec<_>>(), v.iter().copied().skip(1).collect::<Vec<_>>());
+		same!("rev().skip(1)", it.clone().rev().skip(1).collect::<Vec<_>>(), v.iter().rev().copied().skip(1).collect::<Vec<_>>());
+		same!("take(2)", it.clone().take(2).collect::<Vec<_>>(), v.iter().copied().take(2).collect::<Vec<_>>());
+		same!("chain", it.clone().chain(it.clone()).count(), 2 * v.len());
+		same!("zip(rev)", it.clone().zip(it.clone().rev()).collect::<Vec<_>>(), v.iter().copied().zip(v.iter().rev().copied()).collect::<Vec<_>>());
+		same!("enumerate().last()", it.clone().enumerate().last(), v.iter().copied().enumerate().last());
+		same!("peekable", { let mut p = it.clone().peekable(); let a = p.peek().copied(); (a, p.collect::<Vec<_>>()) }, (v.first().copied(), v.clone()));
+		// searching methods: the found item and what is left afterwards
+		for target in KINDS {
+			let mut a = it.clone();
+			let mut b = v.iter().copied();
+			same!("find", a.find(|k| *k == target), b.find(|k| *k == target));
+			same!("the items left after find", a.collect::<Vec<_>>(), b.collect::<Vec<_>>());
+			let mut a = it.clone();
+			let mut b = v.iter().copied();
+			same!("rfind", a.rfind(|k| *k == target), b.rfind(|k| *k == target));
+			same!("the items left after rfind", a.collect::<Vec<_>>(), b.collect::<Vec<_>>());
+			let mut a = it.clone();
+			let mut b = v.iter().copied();
+			same!("position", a.position(|k| k == target), b.position(|k| k == target));
+			same!("the items left after position", a.collect::<Vec<_>>(), b.collect::<Vec<_>>());
+			let mut a = it.clone();
+			let mut b = v.iter().copied();
+			same!("rposition", a.rposition(|k| k == target), b.rposition(|k| k == target));
+			same!("the items left after rposition", a.collect::<Vec<_>>(), b.collect::<Vec<_>>());
+			let mut a = it.clone();
+			let mut b = v.iter().copied();
+			same!("any", a.any(|k| k == target), b.any(|k| k == target));
+			same!("the items left after any", a.collect::<Vec<_>>(), b.collect::<Vec<_>>());
+			let mut a = it.clone();
+			let mut b = v.iter().copied();
+			same!("all", a.all(|k| k != target), b.all(|k| k != target));
+			same!("the items left after all", a.collect::<Vec<_>>(), b.collect::<Vec<_>>());
+			let mut a = it.clone();
+			let mut b = v.iter().copied();
+			same!("find_map", a.find_map(|k| if k >= target { Some(k as usize) } else { None }), b.find_map(|k| if k >= target { Some(k as usize) } else { None }));
+			same!("skip_while", it.clone().skip_while(|k| *k < target).collect::<Vec<_>>(), v.iter().copied().skip_while(|k| *k < target).collect::<Vec<_>>());
+			same!("take_while", it.clone().take_while(|k| *k < target).collect::<Vec<_>>(), v.iter().copied().take_while(|k| *k < target).collect::<Vec<_>>());
+		}
+		Ok(n)
+	}
+	let mut total = 0u64;
+	let mut stack: Vec<Vec<Step>> = vec![vec![]];
+	while let Some(seq) = stack.pop() {
+		// replay the sequence on a fresh iterator and on the model
+		let mut it = make();
+		let mut m: VecDeque<Kind> = items.iter().copied().collect();
+		for (i, st) in seq.iter().enumerate() {
+			let (got, want) = match *st {
+				Step::Next => (it.next(), m.pop_front()),
+				Step::NextBack => (it.next_back(), m.pop_back()),
+				Step::Nth(k) => (it.nth(k), {
+					for _ in 0..k.min(m.len()) {
+						m.pop_front();
+					}
+					m.pop_front()
+				}),
+				Step::NthBack(k) => (it.nth_back(k), {
+					for _ in 0..k.min(m.len()) {
+						m.pop_back();
+					}
+					m.pop_back()
+				}),
+			};
+			total += 1;
+			if got != want {
+				return Err(format!("iter() of {:?} after {:?}: {:?} gives {:?}, expected {:?}", items, &seq[..i], st, got, want));
+			}
+		}
+		let ctx = || format!("iter() of {:?} after {:?}", items, seq);
+		total += whole(&it, &m, &ctx)?;
+		if seq.len() < 3 {
+			for st in &alphabet {
+				let mut s2 = seq.clone();
+				s2.push(*st);
+				stack.push(s2);
+			}
+		}
+	}
+	Ok(total)
+}
+
 pub fn run(cfg: &Config) -> i32 {
 	let started = Instant::now();
 	let mut rep = Report::new();
@@ -143,6 +283,14 @@ pub fn run(cfg: &Config) -> i32 {
 			}
 			match crate::monitor::check_iter_back(&format!("iter() of {:?}", mv), &|| s.iter(), &mv) {
 				Ok(n) => rep.evaluations += n,
+				Err(m) => fail(&mut rep, "iterator-protocol", m),
+			}
+			// every sequence of up to 3 partially consuming calls, every whole-iterator method after each
+			match method_sequences(&mv, &|| s.iter()) {
+				Ok(n) => {
+					rep.evaluations += n;
+					rep.count("iterator_method_sequences", n);
+				}
 				Err(m) => fail(&mut rep, "iterator-protocol", m),
 			}
 			// every interleaving of next / next_back of length 0..=7
@@ -297,7 +445,7 @@ pub fn run(cfg: &Config) -> i32 {
 		cfg,
 		EvidenceMeta {
 			id: "C20",
-			rule: "complete enumeration of the finite domain: all 64 sets (each built in 5 ways through the public API), all 64x64 set pairs (| & |= &= ==), all 64x6 set/kind pairs in both operand orders, all 6x6 kind pairs, every interleaving of next/next_back of length 0..7 on every set with size_hint/len checked before every step, Display / as_disjunction / as_conjunction of every set, Value::kind / is_kind for a value of each variant; compared with a BTreeSet<Kind> model; each enumerated combination is distinct by construction and non-trivial",
+			rule: "complete enumeration of the finite domain: all 64 sets (each built in 5 ways through the public API), all 64x64 set pairs (| & |= &= ==), all 64x6 set/kind pairs in both operand orders, all 6x6 kind pairs, every interleaving of next/next_back of length 0..7 on every set with size_hint/len checked before every step, every sequence of up to 3 calls among next / next_back / nth(k) / nth_back(k) (k in 0,1,2,7) against a double-ended-queue model with every whole-iterator method of Iterator / DoubleEndedIterator / ExactSizeIterator (collect, rev, count, last, min, max, min_by, max_by, *_by_key, fold, rfold, reduce, partition, eq, cmp, is_sorted, for_each, step_by, skip, take, chain, zip, enumerate, peekable, find, rfind, position, rposition, any, all, find_map, skip_while, take_while, and the items left after each searching method) applied to a copy after every prefix, Display / as_disjunction / as_conjunction of every set, Value::kind / is_kind for a value of each variant; compared with a BTreeSet<Kind> model; each enumerated combination is distinct by construction and non-trivial",
 			exhaustive: true,
 			assumptions: vec!["renderings: nothing / single kind / 'a, b or c' / 'a, b and c' / anything, kinds in ascending order null < boolean < number < string < array < object".into()],
 			extra: json!({}),
